@@ -190,7 +190,7 @@ def bucket(case, out):
 def shrink(case):
     for k in list(case["inners"]):
         s = case["inners"][k]
-        for j in range(len(s["msgs"])):
+        for j in range(len(s.get("msgs", []))):
             c = copy.deepcopy(case)
             del c["inners"][k]["msgs"][j]
             yield c
